@@ -17,6 +17,15 @@ tensor's axes randomly permuted). A plain spelling that returns the contracted
 number is compared with the number (or label-free network) the in-place spelling
 leaves. Randomised methods are called with a fixed seed (see GLOBAL_SEEDED /
 AXIS_ORDER_DRAWS / RANDOMISED above one_case).
+(d) installing an array produced under other labels (theorems C03_install_like_same_tensor,
+C03_like_order_is_permutation): Tensor.transpose_like[_] vs the model exactly on integer data for all pairs of
+stored label orders; the in-place pair functions (tensor_compress_bond in every `reduced` / `absorb` mode, direct and
+through compress_between / compress_all[_]; tensor_canonize_bond; tensor_balance_bond) under every stored axis
+order of both tensors: observed axis permutation of the installed array vs `perm_like` (exact, in Coq) + numpy
+oracle (a test). (e) operators between networks, which are not (f, f_) pairs: sum / difference of structured networks
+in every spelling for every relation of the second operand to the first (shared bond names, arrays, objects, axis
+orders): owners of the written objects vs `agsum_writes` (exact, in Coq; theorems C03_agsum_*) + oracle; scalar `*`,
+`/`, unary `-`, `&`, `|`, `@` of TensorNetwork.
 """
 
 import ast
@@ -35,7 +44,13 @@ RULE = (
     "geometry classes; each pair with an argument recipe is run on fresh receivers (several seeds) in three ways "
     "(plain, in-place on a copy, plain on an axis-permuted twin). Transposition: all permutations of ranks 1-4 on "
     "integer arrays. Non-trivial: the in-place spelling changes the receiver's fingerprint (so non-mutation of the "
-    "plain spelling is a real claim)."
+    "plain spelling is a real claim). transpose_like: all pairs of stored label orders up to rank 3 (rank 4 sampled) x "
+    "0/1/2 foreign labels x both spellings. Pair functions: tensor_compress_bond (reduced in True/False/left/right/lazy, "
+    "absorb drawn, entry point drawn from function / compress_between / compress_all[_]), tensor_canonize_bond, "
+    "tensor_balance_bond on two bonded tensors of ranks 2-3 (thorough: 4) in EVERY stored axis order of both; non-trivial: "
+    "the bond is not the last axis of the left or not the first axis of the right tensor. Network sum: 9 structured "
+    "classes x 7 relations of b to a (independent, copy, derived, some bond names shared, same object, axis-permuted) x "
+    "negate x spelling (operator, in-place operator, function, add_* method); non-trivial: b is related to a."
 )
 
 
@@ -1698,6 +1713,13 @@ def run(ctx):
         "a copy sharing its arrays)",
         "modelled, not verified: numpy reshape/transpose, Python object identity / aliasing beyond the heap model of "
         "coq/C03/Model.v; pairs without an argument recipe are listed in the evidence as not exercised",
+        "the observation wrappers of harness/c03.py: Tensor.modify is wrapped to learn which tensor objects a network sum "
+        "writes; tensor_split / tensor_contract / Tensor.__matmul__ are wrapped to snapshot the labelled arrays a pair "
+        "function may install (the installed array is recognised by exact equality up to a unique axis permutation); "
+        "agsum_writes / perm_like are hand models of tensor_network_ag_sum / of the install step, tied by these observations",
+        "tests, not theorems: every value comparison against numpy (SVD truncation reference, dense sums) is at tolerance; "
+        "reduced='lazy' (randomised range finder) is only run untruncated; the sum of multi-site networks WITHOUT bonds is "
+        "outside tensor_network_ag_sum's documented domain and only checked for non-mutation / ownership",
     ]
     ctx.stage(inventory)
     ctx.check_props(["Base/Sums.vo", "Base/TN.vo", "Base/TNExec.vo", "C03/Model.vo", "C03/Proofs.vo", "C03/Props.v", "Gen/C03_pairs.v"])
